@@ -141,6 +141,11 @@ class Server:
         self.restarts += 1
         self._start()
 
+    def recycle(self):
+        """Start a new server process (fresh Environment, empty op cache)."""
+        self.close()
+        self._start()
+
     def req(self, obj, timeout=None):
         return self.req_many([obj], timeout)[0]
 
